@@ -108,3 +108,18 @@ Example C04_connect_nonvacuous :
   p_closed p = true /\ p_parked p = false /\ p_stream_live p = false /\
   f57_final p [IData [RH HPaused]] = p.
 Proof. vm_compute. repeat split. Qed.
+
+(* ... and the same release when the connection is lost instead (finding F64): a request is pipelined behind a streaming
+   response (the reader waits), a write fails, the server tells the protocol Closed.  The protocol ends closed with its
+   reader gone; before the repair handle(Closed) closed the stream and left the reader where it was. *)
+Example C04_lost_connection_releases_reader :
+  let req := RH (HRequest (B "GET") (B "/a") [(B "host", B "x")] (B "1.1")) in
+  let inputs := [IData [req; RH HEndOfMessage; RH HPaused];
+                 IApp (Some (MStart (Some 200%Z) [] false)) [];
+                 IApp (Some (MBody (HB (B "part")) true)) [RH HPaused]] in
+  let mid := f57_final (p_init [] [true]) (firstn 2 inputs) in
+  let p := f57_final (p_init [] [true; false]) inputs in
+  p_parked mid = true /\ p_closed mid = false /\
+  p_closed p = true /\ p_parked p = false /\ p_stream_live p = false /\
+  (let q := f57_final mid [IClosed] in p_closed q = true /\ p_parked q = false).
+Proof. vm_compute. repeat split. Qed.
